@@ -67,6 +67,7 @@ type Frame struct {
 	lastDef  map[string]localDef
 	curLoopHead *ssa.BasicBlock
 	postMode bool
+	oldMode  bool // names are being resolved inside old(...): parameters mean their entry values
 	nameFrame *Frame
 	lastPartial map[*Cell]map[int]bool
 	inlineInits bool
@@ -346,6 +347,11 @@ func (fr *Frame) run(entryCond string, st *State) (string, *State, []Val) {
 					break
 				}
 				fr.env[phi] = fr.evalPhi(phi, live)
+				if fr.mutated[phi] && fr.env[phi].Obj == nil && fr.env[phi].Home == nil {
+					if _, isSlice := phi.Type().Underlying().(*types.Slice); isSlice {
+						fr.env[phi] = fr.ensureObj(fr.env[phi], cur, phiName(phi))
+					}
+				}
 				if phi.Comment != "" {
 					if fr.lastDef == nil {
 						fr.lastDef = map[string]localDef{}
